@@ -405,6 +405,7 @@ func ruleA4(c *Ctx) {
 	m := c.M
 	c.rule("A4", "activation needs all of it: the accept loop reaches the activation only through the success branches of newExternalPlugin, start and the sync callback; every failure continues with the next connection (no return), so later plugins are served", 3)
 	f := acceptLoop(m)
+	loopFn, loopCall := acceptLoopFn(m)
 	sites := activationSites(m, f)
 	if len(sites) == 0 {
 		c.violate("A4", "activation", f.Pos(), "the accept loop activates plugins", "no activation found")
@@ -426,6 +427,9 @@ func ruleA4(c *Ctx) {
 				bad = "the activation is reachable although " + s.name + " failed: an unregistered or unconfigured plugin becomes active"
 			}
 			for _, fb := range errFailBlocks(call) {
+				if loopCall != nil {
+					continue // the failure returns to the Accept loop, checked once below
+				}
 				// failure continues the loop: no return reachable without passing the loop head again
 				for _, r := range returnsOf(f) {
 					if fb.Dominates(r.Block()) {
@@ -446,6 +450,15 @@ func ruleA4(c *Ctx) {
 	// sync failure: loop continues
 	for _, sf := range syncFnCalls(m, f) {
 		ok := canReach(sf.Block(), sf.Block())
+		if loopCall != nil {
+			// the registration lives in a helper: whatever it does, the Accept loop goes on afterwards
+			ok = canReach(loopCall.Block(), loopCall.Block())
+			for _, r := range returnsOf(loopFn) {
+				if loopCall.Block().Dominates(r.Block()) {
+					ok = false
+				}
+			}
+		}
 		c.ok("A4", "sync-failure-continues", sf.Pos(), ok, "after a failed synchronization the accept loop serves the next connection", "the loop ends after the synchronization")
 	}
 }
